@@ -60,8 +60,19 @@ def lessthan_abstract(ssa):
                 accs.append("I" + ("-" if v == "-" else "%s%s" % (v[0], v[1])))
         ident = "k" + hashlib.sha1(json.dumps([var[1], var[2], erase(access)]).encode()).hexdigest()[:10]
         return "%s~%s.%s~%s" % (ident, var[1], var[2], ";".join(accs) or "-")
+    def fixed(e):
+        """the expression reads no local variable"""
+        if isinstance(e, list):
+            if e and e[0] in ("var", "acc", "upd") and isinstance(e[1], list) and e[1][:1] == ["m"] and e[1][5] != "-" and e[1][5][0] == "local":
+                return False
+            return all(fixed(x) for x in e)
+        return True
+
+    def val(e):
+        return "%s/%d" % (h(e), 1 if fixed(e) else 0)
     toks, at = [], {}
     for b in ssa[5]:
+        blk = int(b[1])
         for st in b[5]:
             body = st[1]
             if body[0] != "sub":
@@ -100,10 +111,10 @@ def lessthan_abstract(ssa):
                 elems = "-"
                 at[(int(value[1][1]), int(value[1][2]))] = h(value)
                 if value[0] == "arr":
-                    elems = ",".join(h(e) for e in value[2]) or "-"
+                    elems = ",".join(val(e) for e in value[2]) or "-"
                     for e in value[2]:
                         at[(int(e[1][1]), int(e[1][2]))] = h(e)
-                toks.append("P:%s:%s:%d:%s:%s" % (key(var, kacc), port, indexed, h(value), elems))
+                toks.append("P:%s:%s:%d:%s:%s:%d" % (key(var, kacc), port, indexed, val(value), elems, blk))
             else:
                 toks.append("O")
     return toks, at
